@@ -390,6 +390,134 @@ Proof.
   destruct (P5 Hne d Hd) as [Q1 Q2]. repeat split; try exact Q2; lia.
 Qed.
 
+(** * Multi-sends (one input, several outputs) *)
+Lemma amount_of_not_in cs d : ~ In d (map fst cs) -> amount_of cs d = 0.
+Proof.
+  induction cs as [|[d0 n] r IH]; intros H; [reflexivity|]. rewrite amount_of_cons. cbn [map fst] in H.
+  beq d0 d; [exfalso; apply H; left; exact E|].
+  rewrite IH; [lia|]. intros Hin. apply H. right. exact Hin.
+Qed.
+
+(** what [coins_eqb] decides: for every denomination the amounts agree *)
+Lemma coins_eqb_spec x y : coins_eqb x y = true <-> forall d, amount_of x d = amount_of y d.
+Proof.
+  unfold coins_eqb. rewrite forallb_forall. split.
+  - intros H d. destruct (in_dec bytes_eq_dec d (map fst x ++ map fst y)) as [Hin|Hnin].
+    + apply N.eqb_eq. apply H. exact Hin.
+    + rewrite !amount_of_not_in; [reflexivity| |]; intros Hin; apply Hnin; apply in_or_app; auto.
+  - intros H d _. apply N.eqb_eq. apply H.
+Qed.
+
+Definition outs_ok (outs : list (bytes * coins)) : Prop :=
+  Forall (fun o => addr_ok (fst o) /\ coins_ok (snd o)) outs.
+
+(** the coins the outputs of a multi-send give to address [a] (an address may occur in several outputs) *)
+Definition received (outs : list (bytes * coins)) (a : bytes) : coins :=
+  flat_map (fun o => if bytes_eqb (fst o) a then snd o else []) outs.
+
+Lemma received_not_in outs a : ~ In a (map fst outs) -> received outs a = [].
+Proof.
+  induction outs as [|[a0 cs] r IH]; intros H; [reflexivity|]. unfold received. cbn [flat_map fst snd].
+  cbn [map fst] in H. beq a0 a; [exfalso; apply H; left; exact E|].
+  cbn [app]. apply IH. intros Hin. apply H. right. exact Hin.
+Qed.
+
+Lemma add_outputs_spec : forall outs bk,
+  Bal_inv bk -> outs_ok outs ->
+  Bal_inv (add_outputs bk outs) /\ supply (add_outputs bk outs) = supply bk /\
+  vestings (add_outputs bk outs) = vestings bk /\
+  (forall a d, addr_ok a -> denom_ok d ->
+     balance (add_outputs bk outs) a d = balance bk a d + amount_of (received outs a) d) /\
+  (forall d, denom_ok d -> total_balance (add_outputs bk outs) d = total_balance bk d + amount_of (outs_coins outs) d).
+Proof.
+  induction outs as [|[a0 cs] r IH]; intros bk Hinv Hok.
+  - cbn [add_outputs]. split; [exact Hinv|]. repeat split; intros; rewrite amount_of_nil; lia.
+  - inversion Hok as [|? ? [Ha0 Hcs] Hr]; subst. cbn [fst snd] in Ha0, Hcs. cbn [add_outputs].
+    destruct (add_coins_spec a0 Ha0 cs bk Hinv Hcs) as (A1 & A2 & A3 & A4 & A5 & A6).
+    pose proof (add_account_balances (add_coins bk a0 cs) a0) as Eb.
+    set (bk1 := add_account (add_coins bk a0 cs) a0) in *.
+    pose proof (Bal_inv_balances _ _ Eb A1) as Hinv1.
+    destruct (IH bk1 Hinv1 Hr) as (I1 & I2 & I3 & I4 & I5).
+    split; [exact I1|]. split; [|split; [|split]].
+    + rewrite I2. unfold bk1. rewrite add_account_supply. exact A2.
+    + rewrite I3. unfold bk1. rewrite add_account_vestings. exact A3.
+    + intros a d Ha Hd. rewrite (I4 a d Ha Hd). rewrite (balance_balances _ _ a d Eb).
+      unfold received. cbn [flat_map fst snd]. fold (received r a). rewrite amount_of_app.
+      beq a0 a.
+      * subst a. rewrite (A4 d Hd). lia.
+      * rewrite (A5 a d Ha Hd) by congruence. rewrite amount_of_nil. lia.
+    + intros d Hd. rewrite (I5 d Hd). rewrite (total_balance_balances _ _ d Eb). rewrite (A6 d Hd).
+      unfold outs_coins. cbn [flat_map snd]. rewrite amount_of_app. lia.
+Qed.
+
+Lemma multi_send_spec bk now from cs outs bk' :
+  Bank_inv bk -> addr_ok from -> coins_ok cs -> outs_ok outs ->
+  (forall d, amount_of cs d = amount_of (outs_coins outs) d) ->
+  multi_send bk now from cs outs = Some bk' ->
+  Bank_inv bk' /\ supply bk' = supply bk /\ vestings bk' = vestings bk /\
+  (forall d, denom_ok d -> total_balance bk' d = total_balance bk d) /\
+  (forall a d, addr_ok a -> denom_ok d -> a <> from ->
+     balance bk' a d = balance bk a d + amount_of (received outs a) d) /\
+  (forall d, denom_ok d ->
+     balance bk' from d + amount_of cs d = balance bk from d + amount_of (received outs from) d).
+Proof.
+  intros Hinv Hfrom Hok Houts Hsum H. unfold multi_send in H.
+  destruct (sub_coins bk now from cs) as [bk1|] eqn:Hsub; [|discriminate]. injection H as <-.
+  destruct (sub_coins_spec now from Hfrom cs bk bk1 (Bank_inv_Bal _ Hinv) Hok Hsub) as (S1 & S2 & S3 & S4 & S5 & S6).
+  destruct (add_outputs_spec outs bk1 S1 Houts) as (A1 & A2 & A3 & A4 & A5).
+  assert (Htot : forall d, denom_ok d -> total_balance (add_outputs bk1 outs) d = total_balance bk d).
+  { intros d Hd. rewrite (A5 d Hd). rewrite <- (Hsum d). apply (S6 d Hd). }
+  split; [|split; [|split; [|split; [|split]]]].
+  - apply Bank_inv_intro; [exact A1|]. intros d Hd. rewrite (Htot d Hd).
+    rewrite (supply_of_supply bk1) by exact A2. rewrite (supply_of_supply bk) by exact S2.
+    apply (bi_supply _ Hinv d Hd).
+  - congruence.
+  - congruence.
+  - exact Htot.
+  - intros a d Ha Hd Hne. rewrite (A4 a d Ha Hd). rewrite (S5 a d Ha Hd Hne). reflexivity.
+  - intros d Hd. rewrite (A4 from d Hfrom Hd). pose proof (S4 d Hd). lia.
+Qed.
+
+(** conservation: a multi-send whose outputs sum to its input keeps the invariant (hence the accounting identity),
+    the supply, the total balance of every denomination, and all accounts other than the sender and the recipients *)
+Theorem multi_send_conserves : forall bk now from cs outs bk',
+  Bank_inv bk -> addr_ok from -> Forall (fun c => denom_ok (fst c)) cs ->
+  Forall (fun o => addr_ok (fst o) /\ Forall (fun c => denom_ok (fst c)) (snd o)) outs ->
+  (forall d, amount_of cs d = amount_of (outs_coins outs) d) ->
+  multi_send bk now from cs outs = Some bk' ->
+  Bank_inv bk' /\ (forall d, supply_of bk' d = supply_of bk d) /\
+  (forall d, denom_ok d -> total_balance bk' d = total_balance bk d) /\
+  (forall a d, addr_ok a -> denom_ok d -> a <> from -> ~ In a (map fst outs) -> balance bk' a d = balance bk a d).
+Proof.
+  intros bk now from cs outs bk' Hinv Hfrom Hok Houts Hsum H.
+  destruct (multi_send_spec bk now from cs outs bk' Hinv Hfrom Hok Houts Hsum H) as (P1 & P2 & _ & P4 & P5 & _).
+  split; [exact P1|]. split; [|split; [exact P4|]].
+  - intros d. apply supply_of_supply. exact P2.
+  - intros a d Ha Hd Hne Hnin. rewrite (P5 a d Ha Hd Hne). rewrite (received_not_in outs a Hnin).
+    rewrite amount_of_nil. lia.
+Qed.
+
+(** what moves: the sender loses the input, every address gains what the outputs naming it carry *)
+Theorem multi_send_moves : forall bk now from cs outs bk' d,
+  Bank_inv bk -> addr_ok from -> Forall (fun c => denom_ok (fst c)) cs ->
+  Forall (fun o => addr_ok (fst o) /\ Forall (fun c => denom_ok (fst c)) (snd o)) outs -> denom_ok d ->
+  (forall d, amount_of cs d = amount_of (outs_coins outs) d) ->
+  multi_send bk now from cs outs = Some bk' ->
+  amount_of cs d <= balance bk from d /\
+  balance bk' from d = balance bk from d - amount_of cs d + amount_of (received outs from) d /\
+  (forall a, addr_ok a -> a <> from -> balance bk' a d = balance bk a d + amount_of (received outs a) d).
+Proof.
+  intros bk now from cs outs bk' d Hinv Hfrom Hok Houts Hd Hsum H.
+  destruct (multi_send_spec bk now from cs outs bk' Hinv Hfrom Hok Houts Hsum H) as (_ & _ & _ & _ & P5 & P6).
+  assert (Hle : amount_of cs d <= balance bk from d).
+  { unfold multi_send in H. destruct (sub_coins bk now from cs) as [bk1|] eqn:Hsub; [|discriminate].
+    destruct (sub_coins_spec now from Hfrom cs bk bk1 (Bank_inv_Bal _ Hinv) Hok Hsub) as (_ & _ & _ & S4 & _).
+    pose proof (S4 d Hd). lia. }
+  split; [exact Hle|]. split.
+  - pose proof (P6 d Hd). lia.
+  - intros a Ha Hne. apply (P5 a d Ha Hd Hne).
+Qed.
+
 (** * Burning from a module account *)
 Lemma supply_of_set_supply bk d n d' :
   supply_of (set_supply bk d n) d' = if bytes_eqb d d' then n else supply_of bk d'.
@@ -723,6 +851,9 @@ Print Assumptions total_balance_set_balance.
 Print Assumptions set_balance_Bal_inv.
 Print Assumptions send_conserves.
 Print Assumptions send_moves.
+Print Assumptions coins_eqb_spec.
+Print Assumptions multi_send_conserves.
+Print Assumptions multi_send_moves.
 Print Assumptions burn_sink.
 Print Assumptions burn_never_halts.
 Print Assumptions spendable_is_unlocked.
